@@ -332,18 +332,47 @@ fn generate_roles(r: &mut Rng, class: &str) -> Scenario {
         }
         return Scenario { docs, pre, touch_default_first: r.chance(1, 2), threads, main_runs: r.chance(1, 3), gens: vec![] };
     }
+    if class == "tostr" {
+        // One thread renders a big document with to_string / join / to_array while the
+        // others make many short calls of the same functions that start and finish inside it
+        // (added after seeded change c16r7_render_buffer_release: a retained output buffer
+        // whose busy flag is cleared by a caller that never owned it).
+        let big: Vec<J> = (0..(120 + r.below(60))).map(|i| J::Obj(vec![("id".into(), J::Int(i as i64)), ("s".into(), J::Str(format!("v{}", i % 7)))])).collect();
+        docs.push(J::Obj(vec![("xs".into(), J::Arr(big)), ("a".into(), J::Arr(vec![J::Int(1), J::Int(-2)])), ("s".into(), J::Str("big".into()))]).to_json());
+        let bigd = docs.len() - 1;
+        let pre: Vec<(bool, String)> = ["to_string(@)", "to_string(xs)", "to_string(a)", "to_string({k: s, l: a})", "join(',', xs[*].to_string(@))", "to_string(xs[0])"]
+            .iter()
+            .map(|t| (true, t.to_string()))
+            .collect();
+        threads.push(vec![Op::Search { e: r.below(2), d: bigd, form: 0 }, Op::Search { e: 1, d: bigd, form: 0 }]);
+        for t in 0..2 {
+            let mut ops = vec![];
+            for i in 0..(8 + r.below(5)) {
+                ops.push(Op::Search { e: 2 + (t + i) % 4, d: r.below(bigd), form: 0 });
+            }
+            threads.push(ops);
+        }
+        return Scenario { docs, pre, touch_default_first: true, threads, main_runs: false, gens: vec![] };
+    }
     // badpool
     let long = (0..10).map(|i| format!("\"member-{:03}\"", i)).collect::<Vec<_>>().join(", ");
+    // the same members one per line: errors in these texts carry another line / column layout
+    let long_nl = (0..10).map(|i| format!("\"member-{:03}\"", i)).collect::<Vec<_>>().join(",\n  ");
     let texts = vec![
         format!("length(`[{}]`) || s", long),
-        format!("length(`[{}]`) || s ||| a", long),
+        format!("length(`[{}]`) || s ||| a", long_nl),
         "xs[?id > `0`].id".to_string(),
-        format!("[`[{}]`, a, xs[?id >", long),
+        format!("[`[{}]`, a,\n xs[?id >", long),
+        // fails at run time (invalid type), far into a text of several lines
+        format!("[`[{}]`,\n\n abs(`\"x\"`)]", long),
+        format!("length(`[{}]`) || s ||| a", long),
     ];
+    // in step (everybody at the same text) or skewed by thread (different texts fail at once)
+    let skew = class == "badskew";
     for t in 0..3 {
         let mut ops = vec![];
         for i in 0..(6 + r.below(3)) {
-            let text = texts[i % 4].clone();
+            let text = texts[(i + if skew { 2 * t } else { 0 }) % texts.len()].clone();
             let d = r.below(docs.len());
             ops.push(if (i / 4 + t / 4) % 2 == 0 { Op::CompileSearch { text, d } } else { Op::CustomSearch { text, d } });
         }
@@ -391,7 +420,7 @@ pub fn generate(seed: u64, class: &str) -> Scenario {
     // machine has 8 CPUs) must still come back in order.
     let bigproj = class == "bigproj";
     let mut r = Rng::new(seed);
-    if class == "owner" || class == "rounds" || class == "badpool" || class == "handoff" {
+    if class == "owner" || class == "rounds" || class == "badpool" || class == "badskew" || class == "handoff" || class == "tostr" {
         return generate_roles(&mut r, class);
     }
     let (main_runs, gens) = (false, vec![]);
